@@ -22,6 +22,7 @@ import (
 	"time"
 
 	"rare/pkg/extractor/batchers"
+	"rare/pkg/followreader"
 	vrt "rare/verifrt"
 	"rare/verifrt/vos"
 	"verif/mc"
@@ -78,6 +79,10 @@ func paths(c *Config) [2]string {
 }
 
 func body(c *Config, o *obs) {
+	// executions of one process must not see each other's package-level state
+	// (a shared watcher, a cache): the instrumenter generates these
+	followreader.VerifResetGlobals()
+	batchers.VerifResetGlobals()
 	fs := vos.Reset()
 	ps := paths(c)
 	nfiles := 2
